@@ -49,5 +49,8 @@ func (b *blockedClientListener) Close() error {
 }
 
 func (b *blockedClientListener) unblock() {
-	b.waitCh <- struct{}{}
+	select {
+	case b.waitCh <- struct{}{}:
+	case <-b.doneCh:
+	}
 }
